@@ -7,6 +7,12 @@
 (*   compute()    zips the cells' compute() generators into histograms,    *)
 (* followed by IterateBins over the first histogram yielded.               *)
 (*                                                                         *)
+(* The same object is used again: compute() is called after sc.cut values, *)
+(* called once more at once, then the rest of the flow is filled and       *)
+(* compute() is called a third time.  The consumer writes into the context *)
+(* of every histogram it receives before it asks for the next one, and     *)
+(* into context.bins of every cell IterateBins yields.                     *)
+(*                                                                         *)
 (* Code: lena/structures/split_into_bins.py (SplitIntoBins.__init__ deep   *)
 (* copy per cell, fill, compute, _MdSeqMap, IterateBins.run, MapBins.run), *)
 (* lena/structures/hist_functions.py (get_bin_on_value, init_bins,         *)
@@ -30,46 +36,62 @@ E3 == <<0, 2, 4>>
 E4 == <<0, 2, 4, 6>>
 \* below, on every edge, inside every cell, above
 Coords(e) == (e[1] - 1)..(e[Len(e)] + 1)
-\* has-context patterns: every value / every second value
-HAll(n) == [i \in 1..n |-> TRUE]
-HAlt(n) == [i \in 1..n |-> i % 2 = 0]
-MkFlow(xs, hs) == [i \in 1..Len(xs) |-> [x |-> xs[i], h |-> hs[i]]]
+\* shapes of the flow values: [h |-> has a context of its own, p |-> is a (data, context) pair]
+\*   every value a pair with its context / bare value, pair with an empty context {}, pair with a context, ...
+Full == [h |-> TRUE, p |-> TRUE]
+Bare == [h |-> FALSE, p |-> FALSE]
+EmptyPair == [h |-> FALSE, p |-> TRUE]
+PAll(n) == [i \in 1..n |-> Full]
+PAlt(n) == [i \in 1..n |-> CASE i % 3 = 1 -> Bare [] i % 3 = 2 -> Full [] OTHER -> EmptyPair]
+PAlt2(n) == [i \in 1..n |-> CASE i % 3 = 1 -> EmptyPair [] i % 3 = 2 -> Bare [] OTHER -> Full]
+MkFlow(xs, hs) == [i \in 1..Len(xs) |-> [x |-> xs[i], h |-> hs[i].h, p |-> hs[i].p]]
 AllKinds == {"collect", "collect2", "nonempty", "pervalue", "shift", "mutate", "post", "postdup"}
 SomeKinds == {"collect2", "nonempty", "mutate", "postdup"}
-Scen(ee, kk, ff) == [edges |-> ee, kind |-> kk, flow |-> ff]
+\* cut: compute() is first called after that many values (-1: after the whole flow)
+Scen(ee, kk, ff, cut) == [edges |-> ee, kind |-> kk, flow |-> ff, cut |-> IF cut = -1 THEN Len(ff) ELSE cut]
 \* one-dimensional scenarios: edges e, flows up to n values over Coords(e)
-S1(e, n, kinds) == {Scen(<<e>>, k, MkFlow(xs, hs)) :
-                      k \in kinds, xs \in SeqsUpTo({<<c>> : c \in Coords(e)}, n), hs \in {HAll(n), HAlt(n)}}
+S1(e, n, kinds, pats) == {Scen(<<e>>, k, MkFlow(xs, hs), -1) :
+                            k \in kinds, xs \in SeqsUpTo({<<c>> : c \in Coords(e)}, n), hs \in pats}
+\* the same with compute() called early as well
+S1Cut(e, n, kinds, pats) == {Scen(<<e>>, k, MkFlow(xs, hs), c) :
+                               k \in kinds, xs \in SeqsUpTo({<<c2>> : c2 \in Coords(e)}, n), hs \in pats, c \in 0..(n - 1)}
 \* two-dimensional scenarios over selected coordinates per axis
 C2(e) == {e[1] - 1, e[1], e[1] + 1, e[2], e[Len(e)]}
-S2(e1, e2, n, kinds) == {Scen(<<e1, e2>>, k, MkFlow(xs, HAlt(n))) :
+S2(e1, e2, n, kinds) == {Scen(<<e1, e2>>, k, MkFlow(xs, PAlt(n)), -1) :
                            k \in kinds, xs \in SeqsUpTo(C2(e1) \X C2(e2), n)}
-S1Alt(e, n, kinds) == {sc \in S1(e, n, kinds) : \A i \in 1..Len(sc.flow) : sc.flow[i].h = (i % 2 = 0)}
-Quick(u) == S1(E2, 2, AllKinds) \cup S1(E3, 2, AllKinds) \cup S1Alt(E3, 3, SomeKinds) \cup S1(E4, 2, SomeKinds)
-            \cup S2(E3, E3, 2, {"collect2", "mutate"}) \cup S2(E3, E2, 2, {"collect", "pervalue"})
-Thorough(u) == S1(E2, 3, AllKinds) \cup S1(E3, 3, AllKinds) \cup S1(E3, 4, {"collect2", "nonempty"}) \cup S1(E4, 3, AllKinds)
+WellCut(s) == s.cut <= Len(s.flow)
+Quick(u) == S1(E2, 2, AllKinds, {PAll(2), PAlt(2)}) \cup S1(E3, 2, AllKinds, {PAll(2), PAlt2(2)})
+            \cup S1(E3, 3, {"collect2", "mutate"}, {PAlt(3)}) \cup S1(E4, 2, {"nonempty", "postdup"}, {PAlt(2)})
+            \cup {s \in S1Cut(E3, 2, {"collect2", "mutate", "nonempty"}, {PAll(2), PAlt(2)}) : WellCut(s)}
+            \cup S2(E3, E3, 2, {"collect2"}) \cup S2(E3, E2, 2, {"collect", "pervalue"})
+Thorough(u) == S1(E2, 3, AllKinds, {PAll(3), PAlt(3)}) \cup S1(E3, 3, AllKinds, {PAll(3), PAlt(3), PAlt2(3)})
+               \cup S1(E3, 4, {"collect2", "nonempty"}, {PAlt(4)}) \cup S1(E4, 3, AllKinds, {PAlt(3)})
+               \cup {s \in S1Cut(E3, 3, AllKinds, {PAll(3), PAlt(3)}) : WellCut(s)}
                \cup S2(E3, E3, 2, AllKinds) \cup S2(E3, E2, 3, {"collect2"}) \cup S2(E2, E4, 2, AllKinds)
-Tiny(u) == S1(E3, 2, {"collect2", "nonempty"}) \cup S2(E3, E2, 1, {"collect"})
+Tiny(u) == {s \in S1Cut(E3, 2, {"collect2", "nonempty"}, {PAlt(2)}) : WellCut(s)} \cup S2(E3, E2, 1, {"collect"})
 Scenarios == CASE U = "quick" -> Quick(U) [] U = "thorough" -> Thorough(U) [] U = "tiny" -> Tiny(U)
 
 (***************************************************************************)
 (* The machine.                                                            *)
 (***************************************************************************)
-VARIABLES sc,       \* the scenario [edges, kind, flow]
+VARIABLES sc,       \* the scenario [edges, kind, flow, cut]
           pos,      \* values filled so far
           cells,    \* cell -> positions of the values its copy of the analysis was filled with
+          tmpl,     \* what the analysis object given to the constructor itself was filled with (never anything)
           last,     \* position of the value whose context SplitIntoBins keeps (_cur_context), 0: none
           hctx,     \* _cur_context itself: the snapshot (deep copy) of that value's context
           vctx,     \* the context objects of the flow values (inner elements may write into them)
           phase,    \* "fill" | "compute" | "iter" | "done"
-          out,      \* histograms yielded by compute(): sequence of functions cell -> result
-          it        \* values yielded by IterateBins over out[1]
-vars == <<sc, pos, cells, last, hctx, vctx, phase, out, it>>
+          round,    \* compute() calls finished
+          out,      \* histograms yielded by the compute() in progress: [bins, ctx, w]
+          outs,     \* the finished compute() calls: [n |-> values filled before, hists |-> their out]
+          it        \* values yielded by IterateBins over the first histogram of the last compute()
+vars == <<sc, pos, cells, tmpl, last, hctx, vctx, phase, round, out, outs, it>>
 
 edges == sc.edges
 flow == sc.flow
 Init == /\ sc \in Scenarios
-        /\ pos = 0 /\ last = 0 /\ phase = "fill" /\ out = <<>> /\ it = <<>>
+        /\ pos = 0 /\ last = 0 /\ phase = "fill" /\ round = 0 /\ out = <<>> /\ outs = <<>> /\ it = <<>> /\ tmpl = <<>>
         /\ cells = [idx \in Cells(sc.edges) |-> <<>>]          \* init_bins(edges, seq, deepcopy=True)
         /\ hctx = Ctx(0, 0) /\ vctx = [i \in 1..Len(sc.flow) |-> ArrivingCtx(sc.flow, i)]
 
@@ -77,44 +99,60 @@ Route == CellOf(flow[pos + 1].x, edges)                        \* get_bin_on_val
 \* the walk through self.bins: the first dimension whose index is outside decides
 FirstOut(idx) == CHOOSE d \in 1..Len(edges) : ~(idx[d] >= 1 /\ idx[d] <= NCells(edges[d]))
                                                /\ \A d2 \in 1..(d - 1) : idx[d2] >= 1 /\ idx[d2] <= NCells(edges[d2])
-Filling == phase = "fill" /\ pos < Len(flow)
+\* compute() is due after sc.cut values (twice in a row) and after the whole flow
+ComputeDue == (round \in {0, 1} /\ pos = sc.cut) \/ (round = 2 /\ pos = Len(flow) /\ sc.cut < Len(flow))
+Filling == phase = "fill" /\ pos < Len(flow) /\ ~ComputeDue
+Rest == <<sc, tmpl, phase, round, out, outs, it>>
 FillInside == /\ Filling /\ IsCell(Route, edges)
               /\ hctx' = vctx[pos + 1]                                       \* context = copy.deepcopy(context), first
               /\ cells' = [cells EXCEPT ![Route] = Append(@, pos + 1)]      \* subarr.fill(val): the cell's sequence runs,
-              /\ vctx' = IF Mutates(sc.kind) /\ flow[pos + 1].h              \* its pre-element may write into the context
+              /\ vctx' = IF Mutates(sc.kind) /\ flow[pos + 1].p              \* its pre-element may write into the context
                          THEN [vctx EXCEPT ![pos + 1].mut = pos + 1] ELSE vctx
               /\ last' = pos + 1 /\ pos' = pos + 1
-              /\ UNCHANGED <<sc, phase, out, it>>
+              /\ UNCHANGED Rest
 FillUnderflow == /\ Filling /\ ~IsCell(Route, edges) /\ Route[FirstOut(Route)] = 0     \* if ind < 0: return
-                 /\ pos' = pos + 1 /\ UNCHANGED <<sc, cells, last, hctx, vctx, phase, out, it>>
+                 /\ pos' = pos + 1 /\ UNCHANGED <<cells, last, hctx, vctx>> /\ UNCHANGED Rest
 FillOverflow == /\ Filling /\ ~IsCell(Route, edges) /\ Route[FirstOut(Route)] # 0      \* except IndexError: return
-                /\ pos' = pos + 1 /\ UNCHANGED <<sc, cells, last, hctx, vctx, phase, out, it>>
-StartCompute == /\ phase = "fill" /\ pos = Len(flow)
-                /\ phase' = "compute" /\ UNCHANGED <<sc, pos, cells, last, hctx, vctx, out, it>>
+                /\ pos' = pos + 1 /\ UNCHANGED <<cells, last, hctx, vctx>> /\ UNCHANGED Rest
+Kept == <<sc, pos, cells, tmpl, last, hctx, vctx>>
+StartCompute == /\ phase = "fill" /\ ComputeDue
+                /\ phase' = "compute" /\ UNCHANGED Kept /\ UNCHANGED <<round, out, outs, it>>
 \* every cell's own generator: cell.compute()
 CellRes(idx) == InnerSem(sc.kind, flow, cells[idx])
-\* next(generators): one more result from every cell, or StopIteration from the shortest
-ComputeNext == /\ phase = "compute" /\ \A idx \in Cells(edges) : Len(CellRes(idx)) > Len(out)
-               /\ out' = Append(out, [idx \in Cells(edges) |-> CellRes(idx)[Len(out) + 1]])
-               /\ UNCHANGED <<sc, pos, cells, last, hctx, vctx, phase, it>>
-ComputeStop == /\ phase = "compute" /\ \E idx \in Cells(edges) : Len(CellRes(idx)) <= Len(out)
-               /\ phase' = IF out = <<>> THEN "done" ELSE "iter"
-               /\ UNCHANGED <<sc, pos, cells, last, hctx, vctx, out, it>>
+\* the consumer has written into the context of the histogram yielded last
+Written == IF out = <<>> THEN TRUE ELSE out[Len(out)].w # 0
+\* next(generators): one more result from every cell, or StopIteration from the shortest; the histogram
+\* comes with its own copy of _cur_context (+ variable)
+ComputeNext == /\ phase = "compute" /\ Written /\ \A idx \in Cells(edges) : Len(CellRes(idx)) > Len(out)
+               /\ out' = Append(out, [bins |-> [idx \in Cells(edges) |-> CellRes(idx)[Len(out) + 1]],
+                                      ctx |-> hctx, w |-> 0])                  \* copy.deepcopy(cur_context)
+               /\ UNCHANGED Kept /\ UNCHANGED <<phase, round, outs, it>>
+WriteCtx == /\ phase = "compute" /\ ~Written
+            /\ out' = [out EXCEPT ![Len(out)].w = Len(out)]                    \* context["touched"] = k
+            /\ UNCHANGED Kept /\ UNCHANGED <<phase, round, outs, it>>
+LastCompute == round = 2 \/ (round = 1 /\ sc.cut = Len(flow))
+ComputeStop == /\ phase = "compute" /\ Written /\ \E idx \in Cells(edges) : Len(CellRes(idx)) <= Len(out)
+               /\ outs' = Append(outs, [n |-> pos, hists |-> out]) /\ out' = <<>> /\ round' = round + 1
+               /\ phase' = IF ~LastCompute THEN "fill" ELSE IF out = <<>> THEN "done" ELSE "iter"
+               /\ UNCHANGED Kept /\ UNCHANGED it
+\* the histograms of the last compute()
+Final == outs[Len(outs)].hists
 \* IterateBins.run over the first histogram: itertools.product over the cell indices.  Every yielded
 \* value carries, as context.bins, its own fresh copy of the histogram's context (touched = 0).  The
 \* consumer writes into that copy (Mutate) before it pulls the next cell.
 LastTouched == IF it = <<>> THEN TRUE ELSE it[Len(it)].touched # 0
 IterNext == /\ phase = "iter" /\ Len(it) < Len(CellSeq(edges)) /\ LastTouched
             /\ LET idx == CellSeq(edges)[Len(it) + 1] IN
-               it' = Append(it, [idx |-> idx, e |-> CellEdges(idx, edges), content |-> out[1][idx],
+               it' = Append(it, [idx |-> idx, e |-> CellEdges(idx, edges), content |-> Final[1].bins[idx],
                                  bins |-> hctx, touched |-> 0])               \* copy.deepcopy(hist_context)
-            /\ UNCHANGED <<sc, pos, cells, last, hctx, vctx, phase, out>>
+            /\ UNCHANGED Kept /\ UNCHANGED <<phase, round, out, outs>>
 Mutate == /\ phase = "iter" /\ it # <<>> /\ ~LastTouched
           /\ it' = [it EXCEPT ![Len(it)].touched = Len(it)]                  \* context["bins"]["touched"] = n
-          /\ UNCHANGED <<sc, pos, cells, last, hctx, vctx, phase, out>>
+          /\ UNCHANGED Kept /\ UNCHANGED <<phase, round, out, outs>>
 IterEnd == /\ phase = "iter" /\ Len(it) = Len(CellSeq(edges)) /\ LastTouched
-           /\ phase' = "done" /\ UNCHANGED <<sc, pos, cells, last, hctx, vctx, out, it>>
-Next == FillInside \/ FillUnderflow \/ FillOverflow \/ StartCompute \/ ComputeNext \/ ComputeStop \/ IterNext \/ Mutate \/ IterEnd
+           /\ phase' = "done" /\ UNCHANGED Kept /\ UNCHANGED <<round, out, outs, it>>
+Next == FillInside \/ FillUnderflow \/ FillOverflow \/ StartCompute \/ ComputeNext \/ WriteCtx \/ ComputeStop
+        \/ IterNext \/ Mutate \/ IterEnd
 Spec == Init /\ [][Next]_vars
 Done == phase = "done"
 
@@ -122,15 +160,17 @@ Done == phase = "done"
 (* Properties.                                                             *)
 (***************************************************************************)
 TypeOK == /\ phase \in {"fill", "compute", "iter", "done"} /\ pos \in 0..Len(flow) /\ last \in 0..pos
-          /\ DOMAIN cells = Cells(edges)
+          /\ DOMAIN cells = Cells(edges) /\ round \in 0..3 /\ Len(outs) = round
 \* C11: every cell holds exactly the sub-flow of the values whose argument falls into it, in arrival order
 PerCell == \A idx \in Cells(edges) : cells[idx] = SubFlowUpTo(flow, edges, idx, pos)
+\* the analysis object handed to the constructor is only a template: it is never filled
+TemplateUntouched == tmpl = <<>>
 \* a fill changes at most the cell of the value
-NoCrossTalk == [][phase = "fill" /\ pos < Len(flow) =>
+NoCrossTalk == [][phase = "fill" /\ pos < Len(flow) /\ pos' = pos + 1 =>
                     \A idx \in Cells(edges) : idx # CellOf(flow[pos + 1].x, edges) => cells'[idx] = cells[idx]]_vars
 \* values outside the edges are ignored
-OutsideIgnored == [][(phase = "fill" /\ pos < Len(flow) /\ ~IsCell(CellOf(flow[pos + 1].x, edges), edges)) =>
-                       (cells' = cells /\ last' = last)]_vars
+OutsideIgnored == [][(phase = "fill" /\ pos < Len(flow) /\ pos' = pos + 1 /\ ~IsCell(CellOf(flow[pos + 1].x, edges), edges)) =>
+                       (cells' = cells /\ last' = last /\ hctx' = hctx)]_vars
 \* the cells partition the values inside the edges
 CellsPartition == \A i \in 1..pos :
                     Cardinality({idx \in Cells(edges) : \E j \in 1..Len(cells[idx]) : cells[idx][j] = i})
@@ -141,23 +181,33 @@ Borders == \A i \in 1..pos : \A d \in 1..Len(edges) :
              /\ (c >= 1 /\ c <= NCells(e)) => (e[c] <= x /\ x < e[c + 1])
              /\ c = 0 => x < e[1]
              /\ c = Len(e) => x >= e[Len(e)]
-\* compute() yields the zip of what private copies compute from the sub-flows
-Expected == SIBSem(sc.kind, edges, flow)
-ComputeZip == phase \in {"iter", "done"} => out = Expected
-OutIsPrefix == Len(out) <= Len(Expected) /\ out = SubSeq(Expected, 1, Len(out))
-LastIsLastInside == phase # "fill" => last = LastInside(flow, edges, Len(flow))
-\* the histograms' context: the last inside value's context as it arrived - nothing an inner element wrote
-HistContext == /\ hctx.mut = 0
-               /\ phase # "fill" => hctx = HistCtxSem(edges, flow)
+\* every compute() yields the zip of what private copies compute from the sub-flows of the values filled
+\* so far, each histogram with the arriving context of the inside value filled last
+Prefix(n) == SubSeq(flow, 1, n)
+BinsOf(hs) == [k \in 1..Len(hs) |-> hs[k].bins]
+ComputeZip == \A k \in 1..Len(outs) :
+                /\ BinsOf(outs[k].hists) = SIBSem(sc.kind, edges, Prefix(outs[k].n))
+                /\ \A j \in 1..Len(outs[k].hists) : outs[k].hists[j].ctx = HistCtxSem(edges, Prefix(outs[k].n))
+\* calling compute() again at once gives the same again
+RepeatSame == Len(outs) >= 2 => (BinsOf(outs[2].hists) = BinsOf(outs[1].hists) /\ outs[2].n = outs[1].n)
+OutIsPrefix == LET e == SIBSem(sc.kind, edges, Prefix(pos)) IN
+               phase = "compute" => (Len(out) <= Len(e) /\ BinsOf(out) = SubSeq(e, 1, Len(out)))
+LastIsLastInside == last = LastInside(flow, edges, pos)
+\* the histograms' context: the last inside value's context as it arrived - nothing an inner element wrote,
+\* nothing a consumer wrote into an earlier histogram's context
+HistContext == /\ hctx.mut = 0 /\ hctx = HistCtxSem(edges, Prefix(pos))
+               /\ \A j \in 1..Len(out) : out[j].w \in {0, j} /\ out[j].ctx = hctx
+WriteIsLocal == [][(phase = "compute" /\ Len(out') = Len(out) /\ out' # out) =>
+                     (\A j \in 1..(Len(out) - 1) : out'[j] = out[j]) /\ hctx' = hctx /\ cells' = cells]_vars
 \* the flow values' own contexts: changed only by the inner element of the cell they were filled into
-FlowContexts == /\ phase # "fill" => vctx = FlowCtxSem(sc.kind, edges, flow)
-                /\ \A i \in 1..Len(flow) : vctx[i].src = ArrivingCtx(flow, i).src /\ (i > pos => vctx[i] = ArrivingCtx(flow, i))
+FlowContexts == /\ vctx = [i \in 1..Len(flow) |-> IF i <= pos THEN FlowCtxSem(sc.kind, edges, flow)[i] ELSE ArrivingCtx(flow, i)]
+                /\ \A i \in 1..Len(flow) : vctx[i].src = ArrivingCtx(flow, i).src
 \* IterateBins: every cell once, with its own edges and content
-IterOnceEach == (phase = "done" /\ out # <<>>) =>
-                  /\ [n \in 1..Len(it) |-> [idx |-> it[n].idx, e |-> it[n].e, content |-> it[n].content]] = IterSem(out[1], edges)
+IterOnceEach == (phase = "done" /\ Final # <<>>) =>
+                  /\ [n \in 1..Len(it) |-> [idx |-> it[n].idx, e |-> it[n].e, content |-> it[n].content]] = IterSem(Final[1].bins, edges)
                   /\ Len(it) = Cardinality(Cells(edges))
                   /\ {it[n].idx : n \in 1..Len(it)} = Cells(edges)
-                  /\ \A n \in 1..Len(it) : it[n].content = out[1][it[n].idx]
+                  /\ \A n \in 1..Len(it) : it[n].content = Final[1].bins[it[n].idx]
                                            /\ \A d \in 1..Len(edges) : it[n].e[d] = <<edges[d][it[n].idx[d]], edges[d][it[n].idx[d] + 1]>>
 \* every cell's context.bins is its own: what the consumer writes into one is seen in no other, and the
 \* histogram's context stays as it was
@@ -167,21 +217,24 @@ MutateIsLocal == [][(phase = "iter" /\ Len(it') = Len(it) /\ it' # it) =>
 FreshWhenYielded == [][(Len(it') = Len(it) + 1) => it'[Len(it')].touched = 0 /\ it'[Len(it')].bins = hctx]_vars
 \* MapBins: same cells, every cell the mapping of the corresponding cell (as many histograms as the
 \* shortest per-cell result)
-MapShape == (phase = "done" /\ out # <<>>) =>
+MapShape == (phase = "done" /\ Final # <<>>) =>
               \A m \in {"tag", "dup", "drop", "seen", "src"} :
-                LET ms == MapSem(m, out[1], edges) IN
-                \A k \in 1..Len(ms) : /\ DOMAIN ms[k] = DOMAIN out[1]
-                                      /\ \A idx \in Cells(edges) : ms[k][idx] = MapRes(m, out[1][idx])[k]
+                LET ms == MapSem(m, Final[1].bins, edges) IN
+                \A k \in 1..Len(ms) : /\ DOMAIN ms[k] = DOMAIN Final[1].bins
+                                      /\ \A idx \in Cells(edges) : ms[k][idx] = MapRes(m, Final[1].bins[idx])[k]
 
 (***************************************************************************)
 (* Export (S2C): one record per terminal state.                            *)
 (***************************************************************************)
 NestAll(hs) == [k \in 1..Len(hs) |-> Nest(hs[k], edges)]
 Emitted == Done => PrintT(ToJson([
-   edges |-> edges, kind |-> sc.kind, flow |-> flow,
+   edges |-> edges, kind |-> sc.kind, flow |-> flow, cut |-> sc.cut,
    route |-> [i \in 1..Len(flow) |-> CellOf(flow[i].x, edges)],
-   hists |-> NestAll(out), last |-> last, hctx |-> hctx, vctx |-> vctx,
-   iter |-> it,
-   maps |-> IF out = <<>> THEN <<>>
-            ELSE [m \in {"tag", "dup", "drop", "seen", "src"} |-> NestAll(MapSem(m, out[1], edges))]]))
+   computes |-> [k \in 1..Len(outs) |-> [n |-> outs[k].n, hists |-> NestAll(BinsOf(outs[k].hists)),
+                                          hctx |-> HistCtxSem(edges, Prefix(outs[k].n)),
+                                          last |-> LastInside(flow, edges, outs[k].n)]],
+   hists |-> NestAll(BinsOf(Final)), last |-> last, hctx |-> hctx, vctx |-> vctx,
+   iter |-> [n \in 1..Len(it) |-> [idx |-> it[n].idx, e |-> it[n].e, content |-> it[n].content]],
+   maps |-> IF Final = <<>> THEN <<>>
+            ELSE [m \in {"tag", "dup", "drop", "seen", "src"} |-> NestAll(MapSem(m, Final[1].bins, edges))]]))
 =============================================================================
